@@ -7,7 +7,7 @@ from vlib import treegen as tg, selgen
 
 SEED = int(os.environ.get('VERIF_SEED', '0') or 0)
 IFRAME_DOC = '''<html><body><div id="o"><p id="op" dir="rtl">a</p><iframe id="fr"><html><body><div id="i"><p id="ip">b</p><x id="ix" dir="ltr">c</x></div></body></html></iframe><x id="ox"></x></div><span id="s">d</span><custom-el id="ce"></custom-el></body></html>'''
-SVG_DOC = '''<html xmlns="http://www.w3.org/1999/xhtml"><body><p id="p" dir="ltr">t</p><span id="sp">u</span><svg xmlns="http://www.w3.org/2000/svg" id="svg"><circle id="c1"/><a id="sa" href="#"/></svg><a id="ha" href="#">l</a><input id="in" type="checkbox" checked=""/></body></html>'''
+SVG_DOC = '''<html xmlns="http://www.w3.org/1999/xhtml"><body><p id="p" dir="ltr" class="a b">t</p><span id="sp" class="b">u</span><svg xmlns="http://www.w3.org/2000/svg" id="svg" class="a"><circle id="c1" class="a"/><a id="sa" href="#" class="b"/></svg><a id="ha" href="#">l</a><form><input id="in" type="checkbox" checked=""/><input id="in2" type="text" disabled=""/><input id="s1" type="submit"/></form></body></html>'''
 DOCS = [tg.doc(n) for n in ('forms_hp', 'forms_h5', 'plain_hp', 'xhtml', 'xml', 'multiroot_hp')]
 DOCS.append(bs4.BeautifulSoup(IFRAME_DOC, 'html.parser'))
 DOCS.append(bs4.BeautifulSoup(SVG_DOC, 'xml'))
@@ -28,6 +28,15 @@ ALTS = [a for i, a in enumerate(ALTS) if a not in ALTS[:i]]
 COMPOUNDS = ['*', 'p', 'span', '.a', '[id]', 'svg|*', 'input', ':checked', ':dir(ltr)', ':defined', ':first-child', 'x']
 NA = len(ALTS)
 NPAIR = NA * NA
+# pairs that are always examined: an HTML-only / state pseudo-class next to an alternative that depends on the caller's
+# namespace map, on crossing an iframe, or on a custom alias (both orders)
+HTML_ONLY = [':any-link', ':checked', ':default', ':defined', ':dir(ltr)', ':dir(rtl)', ':disabled', ':enabled', ':in-range',
+             ':indeterminate', ':link', ':optional', ':out-of-range', ':placeholder-shown', ':read-only', ':read-write',
+             ':required']
+SENSITIVE = ['svg|circle', 'svg|*', 'html|p', '#o p', 'div p', 'iframe p', 'x', 'span', '*|circle', 'svg|a', ':--z', '.a',
+             '.b', '[id]']
+FOCUS = [(a, b) for a in HTML_ONLY for b in SENSITIVE] + [(b, a) for a in HTML_ONLY for b in SENSITIVE]
+NFOCUS = len(FOCUS)
 
 
 def _sel(text, ns):
@@ -61,13 +70,19 @@ def laws_ok(pi: int) -> bool:
 
 def _laws(pi, ni):
     if True:
-        x = ((pi * NPARTS + PART) * 2654435761 + 131 * SEED) % NPAIR
-        A, B = ALTS[x % NA], ALTS[x // NA]
+        g = pi * NPARTS + PART
+        x = (g * 2654435761 + 131 * SEED) % NPAIR
+        if g < NFOCUS:
+            A, B = FOCUS[g]
+        else:
+            A, B = ALTS[x % NA], ALTS[x // NA]
         ns = NSMAPS[ni]
         X = COMPOUNDS[x % len(COMPOUNDS)]
         texts = dict(a=A, b=B, ab=f'{A}, {B}', ba=f'{B}, {A}', isab=f':is({A}, {B})', isa=f':is({A})', isb=f':is({B})',
                      nota=f':not({A})', notab=f':not({A}, {B})', wab=f':where({A}, {B})', mab=f':matches({A}, {B})',
-                     star='*', x=X, xisa=f'{X}:is({A})', anyisa=f'*|*:is({A})')
+                     star='*', x=X, xisa=f'{X}:is({A})', anyisa=f'*|*:is({A})', any='*|*', anynotab=f'*|*:not({A}, {B})',
+                     anyisab=f'*|*:is({A}, {B})', anymab=f'*|*:matches({A}, {B})', anywab=f'*|*:where({A}, {B})',
+                     anynota=f'*|*:not({A})')
         c = {k: _sel(t, ns) for k, t in texts.items()}
         if any(v is None for v in c.values()):
             return False
@@ -85,9 +100,14 @@ def _laws(pi, ni):
             ok = ok and r['wab'] == r['isab'] and r['mab'] == r['isab']
             ok = ok and sa <= set(r['ab']) and sb <= set(r['ab'])
             ok = ok and set(r['xisa']) == set(r['x']) & set(r['anyisa'])
+            # the same laws with an explicit namespace-free subject (no implied universal that a default namespace limits)
+            ok = ok and set(r['anynotab']) == set(r['any']) - set(r['anyisab'])
+            ok = ok and set(r['anynota']) == set(r['any']) - set(r['anyisa'])
+            ok = ok and r['anymab'] == r['anyisab'] and r['anywab'] == r['anyisab']
+            ok = ok and set(r['anyisab']) == set(r['anyisa']) | set(_ids(_sel(f'*|*:is({B})', ns), d))
             # results are duplicate free and in document order
             ok = ok and len(set(r['ab'])) == len(r['ab'])
     return ok
 
 
-PLIM = 60 if TIER == 'quick' else 4000
+PLIM = 70 if TIER == 'quick' else 4000
